@@ -824,8 +824,10 @@ def inline_new_helpers_program(trees, known_by_rel):
                     tree.body.remove(st)
                 elif isinstance(st, ast.ClassDef):
                     for m in list(st.body):
+                        # (a new PUBLIC method is part of the class's interface whether or not the package calls it: it stays, for the
+                        # rules to read - only private helpers that are no longer referenced disappear)
                         if isinstance(m, ast.FunctionDef) and ("m", st.name, m.name) in helpers and m.name not in used \
-                                and f"_{st.name}{m.name}" not in used:
+                                and f"_{st.name}{m.name}" not in used and m.name.startswith("_"):
                             st.body.remove(m)
         if n_round == 0:
             break
